@@ -1,5 +1,6 @@
 import IncanModel.Props.C08
 import IncanModel.Tool.FmtCli
+import IncanModel.Lemmas.Writer
 /-
 C09 — Formatting is idempotent and consistent with --check.
 
@@ -9,7 +10,9 @@ Three parts:
   * the CLI decision logic, stated outright: `--check` / `--diff` never change a file; after a
     rewriting run, `--check` succeeds exactly when the formatter is idempotent on that file;
   * the general fact that makes C09 a consequence of C08 for any printer/parser pair.
-Text hygiene (final newline, tabs, trailing blanks) has no model; it is decided by the oracle.
+Text hygiene: the output writer (indentation, line breaks, blank lines) has a model (Tool/Writer) and a theorem —
+it never adds a tab or trailing whitespace to what the formatter hands it; what the formatter hands it (pieces that do not
+end a line in a blank) and the single final newline are decided by the oracle.
 -/
 namespace Incan.Ladder
 
@@ -91,3 +94,69 @@ theorem runFiles_readonly (fmt : String → Option String) (c d : Bool) (files :
 example : (perFile (fun _ => some "x\n") true true "y").contents = "y" := by decide
 
 end Incan.FmtCli
+
+namespace Incan.Writer
+
+/-- MAIN (writer): whatever sequence of operations the formatter performs, as long as its pieces contain no tab and no
+line break and it never ends a line right after a piece that ends in a blank, the text has no trailing whitespace (on a finished line or at its very end) and
+no tab — indentation and blank lines never add any. -/
+theorem writer_hygiene_aux (ops : List Op) (w : W) (pend : Bool) (h : Inv w.out pend) (hc : clientOk pend ops = true) :
+    noTrailing (run w ops).out = true ∧ (run w ops).out.all (fun c => !isTab c) = true ∧
+      endsBlank (run w ops).out = false := by
+  induction ops generalizing w pend with
+  | nil =>
+    refine ⟨h.trailing, h.tabs, ?_⟩
+    have hp : pend = false := by simpa [clientOk] using hc
+    cases hb : endsBlank (run w []).out with
+    | false => rfl
+    | true => exact absurd (h.blank hb) (by rw [hp]; decide)
+  | cons op rest ih =>
+    cases op with
+    | write s =>
+      simp only [clientOk, Bool.and_eq_true] at hc
+      exact ih (write w s) _ (inv_write w s pend h hc.1) hc.2
+    | newline =>
+      simp only [clientOk, Bool.and_eq_true, Bool.not_eq_true'] at hc
+      have hp : pend = false := hc.1
+      subst hp
+      exact ih (newline w) false (inv_newline w.out h) hc.2
+    | indent =>
+      exact ih _ pend h (by simpa [clientOk] using hc)
+    | dedent =>
+      exact ih _ pend h (by simpa [clientOk] using hc)
+    | endLine =>
+      simp only [clientOk, Bool.and_eq_true, Bool.not_eq_true'] at hc
+      have hp : pend = false := hc.1
+      subst hp
+      show _ ∧ _
+      simp only [run, List.foldl_cons, step]
+      cases hw : w.atStart with
+      | true => simpa [run] using ih w false h hc.2
+      | false => simpa [run] using ih (newline w) false (inv_newline w.out h) hc.2
+    | blankLines n =>
+      simp only [clientOk, Bool.and_eq_true] at hc
+      cases n with
+      | zero =>
+        have : clientOk pend rest = true := by simpa using hc.2
+        simpa [run, step, blank] using ih w pend h this
+      | succ k =>
+        have hp : pend = false := by simpa using hc.1
+        subst hp
+        have : clientOk false rest = true := by simpa using hc.2
+        simpa [run, step] using ih (blank (k + 1) w) false (inv_blank (k + 1) w h) this
+
+theorem writer_hygiene (ops : List Op) (width : Nat) (hc : clientOk false ops = true) :
+    noTrailing (run { width := width } ops).out = true ∧ (run { width := width } ops).out.all (fun c => !isTab c) = true ∧
+      endsBlank (run { width := width } ops).out = false :=
+  writer_hygiene_aux ops _ false ⟨rfl, rfl, fun h => by simp [endsBlank] at h⟩ hc
+
+/-- A blank line inside an indented block is empty: a line break at line start adds nothing but the line break. -/
+theorem blank_line_is_empty (w : W) (_h : w.atStart = true) : (newline w).out = w.out ++ ['\n'] := rfl
+
+/-- The seeded variant (C09-6) that writes the indentation before every line break leaves blanks at the end of a line. -/
+def newlineIndenting (w : W) : W := newline (writeIndent w)
+
+theorem indenting_newline_leaves_trailing_blanks :
+    noTrailing (newlineIndenting (newline (write { level := 1 } ['x']))).out = false := by decide
+
+end Incan.Writer
